@@ -519,6 +519,8 @@ def _mutated_attr_names(repo: Repo) -> Dict[str, Tuple[str, ast.AST]]:
                     for t in (n.targets if isinstance(n, ast.Assign) else [n.target]):
                         if isinstance(t, ast.Subscript):
                             recv = t.value
+                        elif isinstance(t, ast.Attribute) and isinstance(t.value, ast.Subscript):
+                            recv = t.value.value          # X[k].field = v changes an element held by X
                 if recv is None:
                     continue
                 while isinstance(recv, ast.Subscript):
@@ -530,8 +532,13 @@ def _mutated_attr_names(repo: Repo) -> Dict[str, Tuple[str, ast.AST]]:
     return out
 
 
-def shared_class_state_rule(repo: Repo, rep, P: str, census):
+def shared_class_state_rule(repo: Repo, rep, P: str, census=None, rule: str = "R3"):
     """Class-level mutables that are mutated somewhere and never re-bound per instance; containers of stateful objects."""
+    if census is None:
+        class Quiet:
+            def __getattr__(self, name):
+                return lambda *a, **k: None
+        census = mutable_census(repo, Quiet(), P)
     mutated = _mutated_attr_names(repo)
     n = 0
     for c in _rv_classes(repo):
@@ -557,19 +564,25 @@ def shared_class_state_rule(repo: Repo, rep, P: str, census):
             if isinstance(elt, ast.Call):
                 k = repo.class_of_expr(elt.func, c, c.file)
                 if k is not None and _stateful(repo, k) and not rebound:
-                    rep.violation(f"{P}.R3", con, f"{attr} = {norm(val)[:70]}",
+                    rep.violation(f"{P}.{rule}", con, f"{attr} = {norm(val)[:70]}",
                                   f"a class-level container of {k.name} objects: {k.name} carries per-instance state "
                                   f"({_stateful(repo, k)}), so every {c.name} shares it", where)
                     continue
+            # (a') a class-level defaultdict inserts on every lookup: reading it through an instance already shares state
+            if isinstance(val, ast.Call) and norm(val.func).split(".")[-1] == "defaultdict" and not rebound and not subclasses_rebind:
+                rep.violation(f"{P}.{rule}", con, f"{attr} = {norm(val)[:60]}",
+                              f"`{attr}` is a class-level defaultdict and no constructor gives each instance its own: every lookup through "
+                              f"any {c.name} inserts into (and later edits) the one shared table", where)
+                continue
             # (b) mutated in place somewhere, never re-bound
             if attr in mutated and not rebound and not subclasses_rebind:
                 site, node = mutated[attr]
                 # reading through .copy()/[:] in the same class is the accepted idiom: require that the mutation targets the attribute itself
-                rep.violation(f"{P}.R3", con, f"{attr} = {norm(val)[:50]}  …  {norm(node)[:70]} ({site})",
+                rep.violation(f"{P}.{rule}", con, f"{attr} = {norm(val)[:50]}  …  {norm(node)[:70]} ({site})",
                               f"`{attr}` is a class-level container, is mutated in place ({site}) and no constructor gives each "
                               f"instance its own: all {c.name} objects share one", where)
             else:
-                rep.ok(f"{P}.R3", con, f"{attr} = {norm(val)[:50]}",
+                rep.ok(f"{P}.{rule}", con, f"{attr} = {norm(val)[:50]}",
                        "re-bound per instance" if rebound or subclasses_rebind else "never mutated in place (read / copied only)", nontrivial=False)
     rep.count("class_level_mutables_checked", n, 25)
 
